@@ -27,7 +27,14 @@ fn mk(node: u8, key_pair: &Arc<Ed25519KeyPair>, trusted: &Arc<[Ed25519PublicKey]
     Obj { st: InitState::new([node; 16], vec![node, node, node], key_pair.clone(), trusted.clone(), algorithms), node, dead: false, successes: 0, trace: vec![] }
 }
 
-fn fail(failing: &mut usize, msg: String) {
+
+// every check of this driver is tagged with the properties whose statement it is taken from; when the driver is consulted for ONE
+// property (VERIF_PROPERTY, set by ./check) only the failures tagged with it count
+fn counts(tags: &str) -> bool {
+    match std::env::var("VERIF_PROPERTY") { Ok(p) if !p.is_empty() => tags.split(',').any(|t| t == p), _ => true }
+}
+fn fail(tags: &str, failing: &mut usize, msg: String) {
+    if !counts(tags) { return; }
     *failing += 1;
     if *failing <= 3 { println!("FAILING-INPUT: {}", msg); }
 }
@@ -83,11 +90,11 @@ fn handshake_stage_machine_survives_replays_and_never_completes_twice_or_with_it
                 let res = panic::catch_unwind(AssertUnwindSafe(|| objs[oi].st.every_second(&mut out).is_ok()));
                 objs[oi].trace.push("tick".into());
                 match res {
-                    Err(_) => { fail(&mut failing, format!("every_second panics on object {} (node {}) after [{}]", oi, objs[oi].node, objs[oi].trace.join(", "))); objs[oi].dead = true; }
+                    Err(_) => { fail("C08", &mut failing, format!("every_second panics on object {} (node {}) after [{}]", oi, objs[oi].node, objs[oi].trace.join(", "))); objs[oi].dead = true; }
                     Ok(true) => { ticks_ok[oi] += 1; if !out.is_empty() { pool.push((out.message().to_vec(), objs[oi].node, format!("retransmission of object {}", oi))); } }
                     Ok(false) => {
                         if before_stage == WAITING_TO_CLOSE || before_stage == CLOSING {
-                            fail(&mut failing, format!("every_second fails on the FINISHED object {} after [{}]", oi, objs[oi].trace.join(", ")));
+                            fail("C05", &mut failing, format!("every_second fails on the FINISHED object {} after [{}]", oi, objs[oi].trace.join(", ")));
                         }
                         objs[oi].dead = true;
                     }
@@ -115,10 +122,10 @@ fn handshake_stage_machine_survives_replays_and_never_completes_twice_or_with_it
                 let res = panic::catch_unwind(AssertUnwindSafe(|| objs[oi].st.handle_init(&mut out).is_ok()));
                 objs[oi].trace.push(format!("recv FORGED ({})", ["bit flip", "truncation", "random bytes"][kind as usize]));
                 match res {
-                    Err(_) => { fail(&mut failing, format!("handle_init panics on a forged datagram, object {} after [{}]", oi, objs[oi].trace.join(", "))); objs[oi].dead = true; }
-                    Ok(true) => { fail(&mut failing, format!("a FORGED handshake datagram ({} bytes) is accepted (answered with {} bytes) by object {} in stage {} after [{}]; it was made from the {}-byte datagram \"{}\"", forged.len(), out.len(), oi, before_stage, objs[oi].trace.join(", "), pool[mi].0.len(), pool[mi].2)); }
+                    Err(_) => { fail("C08", &mut failing, format!("handle_init panics on a forged datagram, object {} after [{}]", oi, objs[oi].trace.join(", "))); objs[oi].dead = true; }
+                    Ok(true) => { fail("C01,C08", &mut failing, format!("a FORGED handshake datagram ({} bytes) is accepted (answered with {} bytes) by object {} in stage {} after [{}]; it was made from the {}-byte datagram \"{}\"", forged.len(), out.len(), oi, before_stage, objs[oi].trace.join(", "), pool[mi].0.len(), pool[mi].2)); }
                     Ok(false) => {
-                        if objs[oi].st.stage() != before_stage { fail(&mut failing, format!("a forged handshake datagram moves object {} from stage {} to stage {} after [{}]", oi, before_stage, objs[oi].st.stage(), objs[oi].trace.join(", "))); }
+                        if objs[oi].st.stage() != before_stage { fail("C01,C08", &mut failing, format!("a forged handshake datagram moves object {} from stage {} to stage {} after [{}]", oi, before_stage, objs[oi].st.stage(), objs[oi].trace.join(", "))); }
                     }
                 }
                 continue;
@@ -131,7 +138,7 @@ fn handshake_stage_machine_survives_replays_and_never_completes_twice_or_with_it
             objs[oi].trace.push(format!("recv {}", what));
             match res {
                 Err(_) => {
-                    fail(&mut failing, format!("handle_init panics on object {} (node {}, plain={}) after [{}]", oi, objs[oi].node, plain, objs[oi].trace.join(", ")));
+                    fail("C08", &mut failing, format!("handle_init panics on object {} (node {}, plain={}) after [{}]", oi, objs[oi].node, plain, objs[oi].trace.join(", ")));
                     objs[oi].dead = true;
                 }
                 Ok(Err(Error::CryptoInitFatal(_))) => { objs[oi].dead = true; }
@@ -143,13 +150,13 @@ fn handshake_stage_machine_survives_replays_and_never_completes_twice_or_with_it
                     objs[oi].successes += 1;
                     if !out.is_empty() { pool.push((out.message().to_vec(), objs[oi].node, format!("peng of object {}", oi))); }
                     if objs[oi].successes > 1 {
-                        fail(&mut failing, format!("object {} (node {}) completes its handshake a SECOND time after [{}]", oi, objs[oi].node, objs[oi].trace.join(", ")));
+                        fail("C01,C05", &mut failing, format!("object {} (node {}) completes its handshake a SECOND time after [{}]", oi, objs[oi].node, objs[oi].trace.join(", ")));
                     }
                     if from_node == objs[oi].node {
-                        fail(&mut failing, format!("object {} of node {} completes a handshake on a datagram emitted by its OWN node ({}) after [{}]", oi, objs[oi].node, what, objs[oi].trace.join(", ")));
+                        fail("C14", &mut failing, format!("object {} of node {} completes a handshake on a datagram emitted by its OWN node ({}) after [{}]", oi, objs[oi].node, what, objs[oi].trace.join(", ")));
                     }
                     if peer_payload == own_payload {
-                        fail(&mut failing, format!("object {} of node {} completes a handshake with its OWN node information as peer payload after [{}]", oi, objs[oi].node, objs[oi].trace.join(", ")));
+                        fail("C14", &mut failing, format!("object {} of node {} completes a handshake with its OWN node information as peer payload after [{}]", oi, objs[oi].node, objs[oi].trace.join(", ")));
                     }
                 }
             }
@@ -164,12 +171,12 @@ fn handshake_stage_machine_survives_replays_and_never_completes_twice_or_with_it
         loop {
             let mut o = MsgBuffer::new(100);
             match panic::catch_unwind(AssertUnwindSafe(|| a.st.every_second(&mut o).is_ok())) {
-                Err(_) => { fail(&mut failing, format!("every_second panics after {} retransmissions", oks)); break; }
+                Err(_) => { fail("C08", &mut failing, format!("every_second panics after {} retransmissions", oks)); break; }
                 Ok(true) => { oks += 1; if oks > MAX_FAILED_RETRIES + 5 { break; } }
                 Ok(false) => break,
             }
         }
-        if oks != MAX_FAILED_RETRIES { fail(&mut failing, format!("an unanswered initiator retransmits {} times before giving up, not MAX_FAILED_RETRIES = {}", oks, MAX_FAILED_RETRIES)); }
+        if oks != MAX_FAILED_RETRIES { fail("C05", &mut failing, format!("an unanswered initiator retransmits {} times before giving up, not MAX_FAILED_RETRIES = {}", oks, MAX_FAILED_RETRIES)); }
         let mut a = mk(1, &key_pair, &trusted, false);
         let mut b = mk(2, &key_pair, &trusted, false);
         let mut out = MsgBuffer::new(100);
@@ -182,8 +189,8 @@ fn handshake_stage_machine_survives_replays_and_never_completes_twice_or_with_it
                 let mut buf = MsgBuffer::new(100);
                 match panic::catch_unwind(AssertUnwindSafe(|| o.st.every_second(&mut buf).is_ok())) {
                     Ok(true) => {}
-                    Ok(false) => { fail(&mut failing, format!("every_second fails on the finished {} at tick {}", name, t)); break; }
-                    Err(_) => { fail(&mut failing, format!("every_second panics on the finished {} at tick {}", name, t)); break; }
+                    Ok(false) => { fail("C05,C12", &mut failing, format!("every_second fails on the finished {} at tick {}", name, t)); break; }
+                    Err(_) => { fail("C08", &mut failing, format!("every_second panics on the finished {} at tick {}", name, t)); break; }
                 }
             }
         }
